@@ -99,3 +99,51 @@ impl vstd::std_specs::convert::FromSpecImpl<VrfError> for AkdError {
 pub open spec fn plog(v: u64) -> u64 { 1u64 << ((63 - vstd::std_specs::bits::u64_leading_zeros(v)) as u64) }
 #[verifier::external_body]
 pub fn vx_from_utf8() -> Result<&'static str, ()> { unimplemented!() }
+
+// ---- key history assembly (C03 partial)
+pub uninterp spec fn gmv_spec(s: u64, e: u64, ep: u64) -> (Seq<u64>, Seq<u64>);
+// what create_single_update_proof must assemble for one stored state (the fields key_history_verify / verify_single_update_proof check)
+pub open spec fn update_assembled<TC: Configuration, S: Database, V>(storage: &StorageManager<S>, vrf: &V, label: Seq<u8>, st: ValueState, up: UpdateProof) -> bool {
+    let v = st.version;
+    &&& up.epoch == st.epoch && up.version == v && up.value == st.value
+    &&& azks_read(storage) is Ok
+    &&& vrf_proof(vrf, label, VersionFreshness::Fresh, v) is Ok && up.existence_vrf_proof@ == proof_bytes(vrf_proof(vrf, label, VersionFreshness::Fresh, v)->Ok_0)
+    &&& vrf_label(vrf, label, VersionFreshness::Fresh, v) is Ok
+    &&& Ok::<MembershipProof, AkdError>(up.existence_proof) == mem_proof(azks_read(storage)->Ok_0, storage, vrf_label(vrf, label, VersionFreshness::Fresh, v)->Ok_0)
+    // the previous version's STALE leaf, for every version after the first; nothing for the first
+    &&& (v > 1 ==> {
+            &&& up.previous_version_proof is Some && up.previous_version_vrf_proof is Some
+            &&& vrf_label(vrf, label, VersionFreshness::Stale, (v - 1) as u64) is Ok
+            &&& Ok::<MembershipProof, AkdError>(up.previous_version_proof->Some_0) == mem_proof(azks_read(storage)->Ok_0, storage, vrf_label(vrf, label, VersionFreshness::Stale, (v - 1) as u64)->Ok_0)
+            &&& vrf_proof(vrf, label, VersionFreshness::Stale, (v - 1) as u64) is Ok
+            &&& up.previous_version_vrf_proof->Some_0@ == proof_bytes(vrf_proof(vrf, label, VersionFreshness::Stale, (v - 1) as u64)->Ok_0)
+        })
+    &&& (v <= 1 ==> up.previous_version_proof is None && up.previous_version_vrf_proof is None)
+    &&& vrf_secret(vrf) is Ok
+    &&& up.commitment_nonce@ == TC::spec_nonce(TC::spec_hash(vrf_secret(vrf)->Ok_0@)@, proof_label(vrf_proof(vrf, label, VersionFreshness::Fresh, v)->Ok_0), v, st.value.0@)@
+}
+pub uninterp spec fn single_update<S: Database, V>(storage: &StorageManager<S>, vrf: &V, label: Seq<u8>, st: ValueState) -> Result<UpdateProof, AkdError>;
+pub open spec fn min_ver(s: Seq<ValueState>, upto: int) -> u64
+    decreases upto
+{
+    if upto <= 0 { s[0].version } else { let m = min_ver(s, upto - 1); if s[upto - 1].version <= m { s[upto - 1].version } else { m } }
+}
+pub open spec fn max_ver(s: Seq<ValueState>, upto: int) -> u64
+    decreases upto
+{
+    if upto <= 0 { s[0].version } else { let m = max_ver(s, upto - 1); if s[upto - 1].version >= m { s[upto - 1].version } else { m } }
+}
+pub proof fn lemma_min_max(s: Seq<ValueState>, upto: int, b: u64)
+    requires 0 <= upto <= s.len(), s.len() >= 1
+    ensures min_ver(s, upto) <= max_ver(s, upto),
+            forall|k: int| 0 <= k < upto ==> min_ver(s, upto) <= (#[trigger] s[k]).version <= max_ver(s, upto),
+            (forall|k: int| 0 <= k < s.len() ==> (#[trigger] s[k]).version >= 1) ==> min_ver(s, upto) >= 1,
+            (forall|k: int| 0 <= k < s.len() ==> (#[trigger] s[k]).version <= b) ==> max_ver(s, upto) <= b,
+    decreases upto
+{
+    if upto > 0 { lemma_min_max(s, upto - 1, b); }
+}
+// typed views (drive type inference for `let mut v = vec![]`)
+pub open spec fn bv(v: Vec<Vec<u8>>) -> Seq<Vec<u8>> { v@ }
+pub open spec fn mv(v: Vec<MembershipProof>) -> Seq<MembershipProof> { v@ }
+pub open spec fn nv(v: Vec<NonMembershipProof>) -> Seq<NonMembershipProof> { v@ }
